@@ -1,5 +1,5 @@
 """C09 - end to end: results delivered through client and server equal the local answer (engine E3)."""
-import copy, itertools, json
+import copy, itertools, json, os
 from mc import core, det, vnet, fe, sse
 
 PROPERTY = 'C09'
@@ -62,13 +62,13 @@ def describe(tier):
                 'driver mirrors frontend/client/commands.py (JSON -> convert_database_keyword_to_bytes, wait callbacks) and searches every '
                 'keyword plus one absent keyword in both search steps. Oracle: the bytes handed to the search callback deserialize to '
                 'DB.get(w, empty); hex/int/raw (and utf8 for printable identifiers) renderings of BytesConverter reproduce the JSON identifiers; '
-                'a step that raises or a search that ends in the client\'s 60 s (virtual) timeout is a violation. Plus, per scheme: all 27 ways of letting none / one / all of the server\'s cleanup timers fire after upload-config, upload-index and search1; a second client object loaded from disk before a later step and used (still unconnected) for the searches; two services with different parameters interleaved command by '
+                'a step that raises or a search that ends in the client\'s 60 s (virtual) timeout is a violation. Plus, per scheme: all 27 ways of letting none / one / all of the server\'s cleanup timers fire after upload-config, upload-index and search1; a second client object loaded from disk before a later step and used (still unconnected) for the searches; the workflow through frontend/client/commands.py itself (JSON files in, service addressed by name, one fresh process per command, printed hex and int results compared with the JSON file) for 3 databases; two services with different parameters interleaved command by '
                 'command on one server and one client process (both orders). Deliveries are sequential '
                 '(one client): no scheduling choices. non-trivial = placement with at least one reload.',
         'bounds': '2^6 placements x 3 restart options per (scheme, database); 7 steps',
         'assumptions': ['in-memory transport instead of TCP (validated by mc/loopback.py on loopback TCP)',
                         'server restart = the server process is killed between two client commands and started again on the same directory'],
-        'must_be_nonzero': ['workflows', 'absent-searched', 'server-restarts', 'reloads', 'tcp-loopback-replays', 'two-service-workflows', 'patterned-keys', 'timing-variants', 'early-object-variants'],
+        'must_be_nonzero': ['workflows', 'absent-searched', 'server-restarts', 'reloads', 'tcp-loopback-replays', 'two-service-workflows', 'patterned-keys', 'timing-variants', 'early-object-variants', 'cli-workflows'],
     }
 
 
@@ -92,6 +92,7 @@ def units(tier, seed):
     for name in sse.SCHEMES:
         us.append(('two-services/%s' % name, {'two': name}))
         us.append(('small-dbs/%s' % name, {'smalldbs': name}))
+        us.append(('cli/%s' % name, {'cli': name}))
     for name in ('CJJ14.PiBas', 'CGKO06.SSE1', 'DP17.Pi', 'CT14.Pi'):
         us.append(('keypatterns/%s' % name, {'keypatterns': name}))
     for name in sse.SCHEMES:
@@ -297,8 +298,117 @@ def run_two_services(r, seed, name, order):
     r.sample(case, limit=1)
 
 
+def run_cli(r, seed, name, dbi):
+    """the whole workflow through frontend/client/commands.py - the functions run_client.py dispatches to: configuration and
+    database come from JSON FILES, the service is addressed by name, every command is a fresh client 'process', results are
+    what the command prints in the hex and int formats"""
+    import io, contextlib, re, ast
+    from toolkit.database_utils import convert_database_keyword_to_bytes
+    case = {'scheme': name, 'db': dbi, 'cli': True}
+    core.note_case(case)
+    det.seed_case(seed, PROPERTY, name, dbi, 'cli')
+    jdb = json_dbs()[dbi]
+    bdb = convert_database_keyword_to_bytes(json.loads(json.dumps(jdb)))
+    expected = {kw: [bytes.fromhex(h) for h in ids] for kw, ids in jdb.items()}          # independent of the library's converter
+    cfg = sse.finalize_cfg(name, wf_cfg(name), bdb)
+    r['evaluations'] += 1
+    r['states'] += 1
+    r['nontrivial'] += 1
+    r.count('cli-workflows')
+    w = fe.World(eager=True)
+    files = det.workdir('c09cli')
+    step = 'boot'
+    try:
+        import frontend.client.commands as cmd
+        import frontend.client.services.service_name_handler as snh
+        cfg_path, db_path = os.path.join(files, 'cfg.json'), os.path.join(files, 'db.json')
+        json.dump(cfg, open(cfg_path, 'w'))
+        json.dump(jdb, open(db_path, 'w'))
+        w.start_server()
+        n = [0]
+
+        def fresh_process():
+            setattr(cmd, '__client_service', None)
+            for fn in (snh.read_service_mapping, snh.write_service_mapping):
+                for cell in (fn.__closure__ or ()):
+                    try:
+                        if isinstance(cell.cell_contents, dict):
+                            cell.cell_contents = None
+                    except ValueError:
+                        pass
+
+        def run(f, *a, **k):
+            fresh_process()
+            n[0] += 1
+            buf = io.StringIO()
+
+            async def wrapper():
+                res = f(*a, **k)
+                if hasattr(res, '__await__'):
+                    res = await res
+                return res
+            with contextlib.redirect_stdout(buf):
+                t = w.loop.spawn(wrapper(), 'client#%d' % n[0])
+                w.loop.run_until(t.done)
+                t.result()
+            fe.settle(w.loop, timers=True)
+            root = str(w.m['cfm']._PROGRAM_PATH)
+            for d in os.listdir(root):
+                if os.path.isdir(os.path.join(root, d)) and d not in w.client_sids:
+                    w.client_sids.append(d)
+                    w.sids.append(d)
+            text = buf.getvalue()
+            if re.search(r'error', text, re.I) or 'Unsupported' in text:
+                raise RuntimeError('command printed: ' + text.strip().splitlines()[-1][:200])
+            return text
+        sname = 'svc-%s' % name
+        for step, f, a in (('create', cmd.create_service, (cfg_path, sname)), ('genkey', cmd.generate_key, ()), ('encrypt', cmd.encrypt_database, (db_path,)),
+                           ('upload-config', cmd.upload_config, ()), ('upload-index', cmd.upload_encrypted_database, ())):
+            r['transitions'] += 1
+            run(f, *a, **({} if step == 'create' else {'sname': sname}))
+        for fmt in ('hex', 'int'):
+            for kw in list(jdb) + ['absent-keyword']:
+                step = 'search/%s' % fmt
+                r['transitions'] += 1
+                text = run(cmd.search, kw, fmt, sname=sname)
+                m_ = re.search(r'>>> The result is (\[.*?\])\.', text)
+                if not m_:
+                    r.v(PROPERTY, name, 'cli-no-result-printed', fmt, dict(case, keyword=kw), 'a result line', text.strip()[-160:])
+                    continue
+                got = ast.literal_eval(m_.group(1))
+                exp = expected.get(kw, [])
+                if fmt == 'hex':
+                    gotv, expv = [str(x).lower() for x in got], [x.hex() for x in exp]
+                else:
+                    gotv, expv = [int(x) for x in got], [int.from_bytes(x, 'big') for x in exp]
+                if sorted(gotv) != sorted(expv) or (name not in sse.SET_RESULT and gotv != expv):
+                    r.v(PROPERTY, name, 'cli-result-differs', fmt + ('/absent' if kw not in jdb else ''), dict(case, keyword=kw), expv, gotv)
+                    r.outcome('cli-result-differs')
+                else:
+                    r.outcome('cli-search-ok/' + ('present' if kw in jdb else 'absent'))
+    except Exception as e:
+        kind = 'step-timeout' if 'Timeout' in type(e).__name__ else 'step-raises'
+        r.v(PROPERTY, name, kind, 'cli/%s/%s:%s' % (step, core.exc_site(e), type(e).__name__), dict(case, step=step), 'command succeeds', core.exc_text(e))
+        r.outcome(kind)
+    finally:
+        import shutil
+        shutil.rmtree(files, ignore_errors=True)
+        try:
+            import frontend.client.services.service_name_handler as snh2
+            os.unlink(str(snh2.SERVICE_MAPPING_PATH))
+        except Exception:
+            pass
+        w.close()
+    r.sample(case, limit=1)
+
+
 def run_unit(p, tier, seed):
     r = core.Result()
+    if 'cli' in p:
+        for dbi in (0, 1, 2):
+            run_cli(r, seed, p['cli'], dbi)
+        det.restore()
+        return r
     if 'two' in p:
         for order in (0, 1):
             run_two_services(r, seed, p['two'], order)
@@ -348,6 +458,9 @@ def replay(case, seed):
         return run_unit({'tcp': case['tcp']}, 'quick', seed)['violations']
     if case.get('two_services'):
         run_two_services(r, seed, case['scheme'], case['order'])
+        return r['violations']
+    if case.get('cli'):
+        run_cli(r, seed, case['scheme'], case['db'])
         return r['violations']
     run_case(r, seed, case['scheme'], case['db'], case['reload_before_step'], case['server_restart_before_step'], keypattern=case.get('keypattern'),
              timing=case.get('cleanup_timers_fired_after_step'), early_object_at=case.get('early_client_object_loaded_before_step'))
